@@ -1196,6 +1196,30 @@ def must_refuse_mixed(tree):
     return None
 
 
+def gen_qualifier_content():
+    """qualifier content arity: <degree> / <logbase> / <bvar> with 0, 2 and 3 children (numbers, identifiers, applies)
+    inside root / log / diff, and the <degree> inside a <bvar>; the oracle refuses every count other than the proper one
+    (a <logbase> with surplus children is tolerated today: known finding qualifier-misuse, compared with the model only)"""
+    out = []
+
+    def add(t):
+        out.append({'kind': 'qualifier-content', 'tree': t})
+    x = ci('x')
+    mk = {'cn': lambda i: cn(['3', '2', '4'][i]), 'ci': lambda i: ci('n%d' % i),
+          'apply': lambda i: ap('plus', ci('m%d' % i), cn('1'))}
+    for n in (0, 1, 2, 3):
+        for ks in itertools.product(sorted(mk), repeat=n):
+            kids = lambda: [mk[k](i) for i, k in enumerate(ks)]
+            add(ap('root', E('degree', kids()), x))
+            add(ap('log', E('logbase', kids()), x))
+            add(ap('diff', E('bvar', kids()), x))
+            add(ap('diff', E('bvar', [ci('t'), E('degree', kids())]), x))
+            add(ap('diff', E('bvar', [ci('t')] + kids()), x))
+            add(ap('plus', ap('root', E('degree', kids()), x), ci('w')))
+            add(E('piecewise', [E('piece', [ap('root', E('degree', kids()), x), ap('lt', x, ci('w'))])]))
+    return out
+
+
 def gen_nested_powers():
     """power of a power, root of a power, power of a root: (a^b)^c is NOT a^(b*c) for a negative a with an even b and
     a fractional c -- power(power(x,2),0.5) is |x|.  Inner forms with a non-negative value x outer exponents, at
@@ -1412,7 +1436,9 @@ def qualifier_misuse(v):
         if t[0] in ('degree', 'logbase', 'bvar', 'piece', 'otherwise', 'math'):
             if not _proper_place(t, parent, pos):
                 return True
-            if t[0] in ('degree', 'logbase') and len(t[4]) != 1:
+            # only what the unchanged code tolerates: <logbase> uses its first child and ignores further ones;
+            # <degree> with any other number of children than one, and an empty <logbase>, are refused today
+            if t[0] == 'logbase' and len(t[4]) >= 2:
                 return True
             if t[0] == 'bvar' and len(t[4]) == 2 and t[4][1][0] != 'degree':
                 return True
@@ -1474,7 +1500,8 @@ def nowhere_defined(tree):
 
 def exhaustive_cases():
     return (gen_tag_arity() + gen_qualifiers() + gen_numbers() + gen_special_operands() + gen_constants()
-            + gen_repeated_chains() + gen_nested_powers() + gen_relation_operands())
+            + gen_repeated_chains() + gen_nested_powers() + gen_relation_operands()
+            + gen_qualifier_content())
 
 
 def run(ctx):
